@@ -449,8 +449,20 @@ package iscp
 //  for the payload-preserving store, which is the default one)
 
 //@ func ConnectWithConfig
-//@   props C02
-//@   assert call connectWire: c.sentStorage != nil && imp(old(c.sentStorage) == nil, typeis(c.sentStorage, *inmemSentStorage) && unbox(c.sentStorage, *inmemSentStorage) != nil)   // default store keeps payloads
+//@   props C02 C15
+//@   assert[C02] call connectWire: c.sentStorage != nil && imp(old(c.sentStorage) == nil, typeis(c.sentStorage, *inmemSentStorage) && unbox(c.sentStorage, *inmemSentStorage) != nil)   // default store keeps payloads
+//@   assert[C15] call connectWire: c.PingInterval == ite(old(c.PingInterval) == 0, defaultPingInterval, old(c.PingInterval)) && c.PingTimeout == ite(old(c.PingTimeout) == 0, defaultPingTimeout, old(c.PingTimeout))   // configured keepalive, defaults only for zero
+
+// ---------------------------------------------------------------- C15 / C05: every (re)connect
+// asks the token source and dials with the token of this very attempt and the configured keepalive
+//@ func (*ConnConfig).connectWire
+//@   props C15 C05
+//@   ghostvar asked bool = false
+//@   ghostvar tok string = ""
+//@   after call TokenSource).Token: asked = (res1 == nil)
+//@   after call TokenSource).Token: tok = res0
+//@   assert[C05] call wire.Connect: asked && arg0 != nil && arg0.AccessToken == tok
+//@   assert[C15] call wire.Connect: arg0 != nil && arg0.PingInterval == c.PingInterval && arg0.PingTimeout == c.PingTimeout
 
 // a nil result (= ack timeout, after which the chunk is forgotten) is produced only after
 // the timeout fired AND the surrounding context was then seen not to be cancelled
